@@ -22,6 +22,7 @@ GRID = ("suite_grid", {"n": {"quick": 120, "thorough": 3000}})
 GRID_DISCOVER = ("suite_grid", {"n": {"quick": 320, "thorough": 5000}, "modes": ("discover",)})
 SAMPLING = ("suite_sampling", {"n": {"quick": 160, "thorough": 3000}, "subprocs": {"quick": 1, "thorough": 2}})
 SAMPLING_GROW = ("suite_sampling", {"n": {"quick": 120, "thorough": 3000}, "subprocs": 0, "modes": ("grow-random", "grow-hyperband")})
+SAMPLING_SAMENAME = ("suite_sampling", {"n": {"quick": 90, "thorough": 2000}, "subprocs": 0, "modes": ("samename-random", "samename-hyperband", "samename-bayes")})
 TRANSFORMS_SMALL = ("suite_transforms", {"n": {"quick": 200, "thorough": 3000}})
 HYPERBAND_SMALL = ("suite_hyperband", {"n": {"quick": 40, "thorough": 800}})
 
@@ -152,7 +153,7 @@ PROPS = {
                           "anything is reloaded) is checked on the implementation by resuming interrupted searches and by crashing before every file "
                           "write of whole searches; the window of known finding F18 is reported under C08.",
             "assumptions": ["KeyboardInterrupt-like interrupts are modelled as BaseException raised by run_trial"]},
-    "C05": {"suites": [SAMPLING, GRID, TRANSFORMS_SMALL],
+    "C05": {"suites": [SAMPLING, SAMPLING_SAMENAME, GRID, TRANSFORMS_SMALL],
             "level_text": "Theorems (Ktm/Props/C05.lean): an enumerated assignment binds an entry iff it is active under the assignment itself and to a "
                           "member of its value list; every random sample (any draws, seed, tried set) and every grid trial of every reachable state is an "
                           "enumerated assignment; a Hyperband promotion keeps the parent's values; stepped value lists are the declared lattice (C14).",
